@@ -152,6 +152,18 @@ type ElemMove struct {
 	To   PtCase   `json:"to"`
 	Aux  ElemCase `json:"aux,omitempty"` // the argument element, where the mutator takes one
 	K    string   `json:"k,omitempty"`
+	// ZeroRecv: the object is a zero-value Element (new(Element), never initialised) instead of one holding From; only
+	// used with mutators that overwrite the receiver completely.
+	ZeroRecv bool `json:"zero_value_receiver,omitempty"`
+}
+
+// Start returns the object the move begins with.
+func (mv ElemMove) Start() *secp256k1.Element {
+	if mv.ZeroRecv {
+		return new(secp256k1.Element)
+	}
+
+	return mv.From.Build()
 }
 
 // ElemVias lists the mutators an element can be moved through.
@@ -215,6 +227,12 @@ func PlanElemMove(via string, r *gen.Rng) ElemMove {
 	}
 
 	mv.To = PtToCase(to, via)
+
+	switch via {
+	case "set", "decode", "decodeC", "decodeU", "decodeU-any", "unmarshal", "decodehex", "coords", "identity", "base", "decode-identity":
+		// mutators that overwrite the receiver completely must also work on a zero-value Element
+		mv.ZeroRecv = r.Intn(4) == 0
+	}
 
 	return mv
 }
